@@ -66,3 +66,36 @@ Qed.
 Lemma cached_variant_single_steps_exact : forall T P s,
   cval (c_compose (c_fresh T) (c_fresh P)) = rtp Rops T P /\ cval (c_scale (c_fresh P) s) = pscale Rops P s.
 Proof. intros. split; reflexivity. Qed.
+
+(* ---------------------------------------------------------------- Wave 17: samples and their poses *)
+(* _calculate_mean_diagonal iterates  zip(cf_poses, matched_samples)  and, inside, the base stations seen in that sample:
+   every sample is paired with ITS pose; a sample without angles contributes no diagonal. *)
+Definition sample := list (poseR * (vecR * vecR * vecR * vecR)).          (* (bs pose, 4 sensor vectors) per station seen *)
+Definition obs_of_samples (cfs : list poseR) (sams : list sample) : list diag_obs :=
+  flat_map (fun cs => map (fun bv => (fst cs, fst bv, snd bv)) (snd cs)) (combine cfs sams).
+Definition mean_diagonal_samples (cfs : list poseR) (sams : list sample) : R := mean_diagonal (obs_of_samples cfs sams).
+
+Lemma obs_insert_empty : forall cfs1 sams1 cf cfs2 sams2, length cfs1 = length sams1 ->
+  obs_of_samples (cfs1 ++ cf :: cfs2) (sams1 ++ [] :: sams2) = obs_of_samples (cfs1 ++ cfs2) (sams1 ++ sams2).
+Proof.
+  induction cfs1 as [|c cfs1 IH]; intros sams1 cf cfs2 sams2 Hl; destruct sams1 as [|s sams1]; try discriminate.
+  - reflexivity.
+  - unfold obs_of_samples in *. cbn [app combine flat_map]. f_equal. apply IH. cbn in Hl. congruence.
+Qed.
+
+Lemma mean_diagonal_insert_empty : forall cfs1 sams1 cf cfs2 sams2, length cfs1 = length sams1 ->
+  mean_diagonal_samples (cfs1 ++ cf :: cfs2) (sams1 ++ [] :: sams2) = mean_diagonal_samples (cfs1 ++ cfs2) (sams1 ++ sams2).
+Proof. intros. unfold mean_diagonal_samples. rewrite obs_insert_empty by assumption. reflexivity. Qed.
+
+(* the filter-then-zip variant: angle-less samples are dropped from the SAMPLE list only, the poses keep their places *)
+Definition obs_filter_then_zip (cfs : list poseR) (sams : list sample) : list diag_obs :=
+  obs_of_samples cfs (filter (fun s => match s with [] => false | _ => true end) sams).
+
+Lemma filter_then_zip_refuted : exists cfs sams,
+  obs_filter_then_zip cfs sams <> obs_of_samples cfs sams.
+Proof.
+  set (c0 := MkPose (mid Rops) (V3 0 0 0)). set (c1 := MkPose (mid Rops) (V3 1 0 0)).
+  set (v := V3 1 0 0). set (bv := (c0, (v, v, v, v))).
+  exists [c0; c1], [[]; [bv]]. unfold obs_filter_then_zip, obs_of_samples. cbn.
+  intro H. injection H as H. lra.
+Qed.
